@@ -43,20 +43,24 @@ func (a vclock) copyOf() vclock { return append(vclock(nil), a...) }
 type threadAbort struct{}
 
 type thread struct {
-	id      int
-	resume  chan bool // true = run, false = abort
-	done    bool
-	started bool
-	blocked *lockState
-	waiting bool // in Wait()
-	vc      vclock
-	depth   int
-	name    string
+	id       int
+	resume   chan bool // true = run, false = abort
+	done     bool
+	started  bool
+	blocked  *lockState
+	blockedW bool // blocked as a writer of an RWMutex: readers hold it off too
+	waiting  bool // in Wait()
+	vc       vclock
+	depth    int
+	name     string
 }
 
 type lockState struct {
 	holder *thread
 	vc     vclock
+	// sync.RWMutex: shared holders, and the join of their release clocks
+	readers int
+	rvc     vclock
 }
 
 type cellState struct {
@@ -157,7 +161,7 @@ func (i *interpreter) enabled() []*thread {
 		if t.done {
 			return
 		}
-		if t.blocked != nil && t.blocked.holder != nil {
+		if t.blocked != nil && (t.blocked.holder != nil || (t.blockedW && t.blocked.readers > 0)) {
 			return
 		}
 		if t.waiting {
@@ -426,6 +430,77 @@ func ext۰Mutex۰Unlock(fr *frame, args []value) value {
 	i.cur.vc[i.cur.id]++
 	// the releasing thread's next scheduling point (its next acquisition,
 	// wait or exit) is where another thread may take over
+	if YieldEverywhere {
+		i.yield("unlock")
+	}
+	return nil
+}
+
+// sync.RWMutex: Lock excludes everything, RLock excludes writers only.  The
+// state lives in the scheduler (created on first use), never in the struct.
+func rwState(i *interpreter, args []value) *lockState {
+	s := i.ensureSched()
+	p := mutexCell(args)
+	l := s.locks[p]
+	if l == nil {
+		l = &lockState{}
+		s.locks[p] = l
+	}
+	return l
+}
+
+func ext۰RWMutex۰Lock(fr *frame, args []value) value {
+	i := fr.i
+	l := rwState(i, args)
+	i.yield("lock")
+	for l.holder != nil || l.readers > 0 {
+		i.cur.blocked, i.cur.blockedW = l, true
+		i.yield("blocked")
+	}
+	i.cur.blocked, i.cur.blockedW = nil, false
+	l.holder = i.cur
+	i.cur.vc = i.cur.vc.join(l.vc).join(l.rvc)
+	return nil
+}
+
+func ext۰RWMutex۰Unlock(fr *frame, args []value) value {
+	i := fr.i
+	l := rwState(i, args)
+	if l.holder == nil {
+		panic(targetPanic{iface{i.runtimeErrorString, "sync: Unlock of unlocked RWMutex"}})
+	}
+	l.holder = nil
+	l.vc = i.cur.vc.copyOf()
+	i.cur.vc[i.cur.id]++
+	if YieldEverywhere {
+		i.yield("unlock")
+	}
+	return nil
+}
+
+func ext۰RWMutex۰RLock(fr *frame, args []value) value {
+	i := fr.i
+	l := rwState(i, args)
+	i.yield("lock")
+	for l.holder != nil {
+		i.cur.blocked, i.cur.blockedW = l, false
+		i.yield("blocked")
+	}
+	i.cur.blocked = nil
+	l.readers++
+	i.cur.vc = i.cur.vc.join(l.vc)
+	return nil
+}
+
+func ext۰RWMutex۰RUnlock(fr *frame, args []value) value {
+	i := fr.i
+	l := rwState(i, args)
+	if l.readers == 0 {
+		panic(targetPanic{iface{i.runtimeErrorString, "sync: RUnlock of unlocked RWMutex"}})
+	}
+	l.readers--
+	l.rvc = l.rvc.join(i.cur.vc)
+	i.cur.vc[i.cur.id]++
 	if YieldEverywhere {
 		i.yield("unlock")
 	}
